@@ -87,9 +87,34 @@ def generate(seed: int, tier: str = "quick") -> dict:
             t = rp.choice(toks)
             add(b, ph, "aave.supply", {"token": t, "amount": str(Decimal(A.dstr(float(unit[t]) * rp.uniform(0.1, 2), 6))), "collateral": mw["risk"][t]["collateral"]})
         elif r < 0.95:
-            add(b, ph, "aave.repay", {"token": {"borrowed": rp.randint(0, 3)}, "amount": {"f": "debt", "x": rp.choice(["0.3", "0.7"])}})
+            a = {"token": {"borrowed": rp.randint(0, 3)}, "amount": {"f": "debt", "x": rp.choice(["0.3", "0.7"])}}
+            if rp.random() < 0.5:
+                a["with_collateral"] = True
+                if rp.random() < 0.7:
+                    a["collateral_token"] = {"supplied": rp.randint(0, 3)}
+            add(b, ph, "aave.repay", a)
         else:
             add(b, ph, "aave.withdraw", {"token": {"supplied": rp.randint(0, 3)}, "amount": rp.choice([None, {"f": "supply", "x": "0.5"}, {"f": "supply", "x": "1.2"}])})
+    # same-bar sequences: borrow, partial repayment out of collateral (collateral shrinks), then a request on the
+    # borrow frontier / a figure read / a frontier withdrawal - all before the next status refresh
+    for _ in range(rp.choice([0, 0, 1, 1, 2])):
+        b = rp.randint(first, nb - 1)
+        ph = rp.choice([1, 2, 3, 3, 4])
+        t = rp.choice(toks)
+        add(b, ph, "aave.borrow", {"token": t, "amount": {"f": "ref_max_borrow", "x": rp.choice(["0.3", "0.5", "0.7"])}})
+        ra = {"token": {"borrowed": rp.randint(0, 3)}, "amount": {"f": "debt", "x": rp.choice(["0.2", "0.5", "0.9"])}, "with_collateral": True,
+              "collateral_token": {"supplied": rp.randint(0, 3)}}
+        add(b, ph, "aave.repay", ra)
+        sign, k = rp.choice([1, -1]), rp.choice(KS)
+        x = str(1 + sign * Decimal(10) ** -k)
+        follow = rp.choice(["borrow", "borrow", "withdraw", "read"])
+        if follow == "borrow":
+            add(b, ph, "aave.borrow", {"token": rp.choice(toks), "amount": {"f": "ref_max_borrow", "x": x, "q": False}})
+        elif follow == "withdraw":
+            add(b, ph, "aave.withdraw", {"token": {"supplied": rp.randint(0, 3)}, "amount": {"f": "ref_max_withdraw", "x": x, "q": False}})
+        else:
+            add(b, ph, "aave.read", {"view": rp.choice(["health_factor", "max_ltv", "liquidation_threshold"])})
+        faults.append({"kind": "same_bar:borrow_repay_with_collateral_" + follow, "bar": b})
     program = [p for _, p in sorted(enumerate(program), key=lambda e: (e[1]["bar"], PHASES.index(e[1]["phase"]), e[0]))]
     return {"property": ID, "seed": seed, "world": world, "program": program, "faults": faults}
 
